@@ -133,7 +133,9 @@ def explicit_raise(path):
     for e in reversed(path.events):
         if e.kind == 'raise':
             return e
-        if e.kind in ('call', 'leave'):
+        if e.kind == 'leave':
+            continue        # unwinding out of a callee that was walked into
+        if e.kind == 'call':
             return None
     return None
 
